@@ -417,7 +417,6 @@ func (p *queueProcessor) enqueueIfSlotAvailable(req *Request) bool {
 			Msg("Slot not available anymore, dropping request")
 		return false
 	}
-	verifhook.Point("q.mid_enroll", "id", req.GetID())
 
 	p.logger.Trace().Str("requestID", req.GetID()).Msg("Slot available, enqueuing")
 	if err := p.queue.Enqueue(req.GetID(), req.GetPriority()); err != nil {
